@@ -26,6 +26,15 @@ fn parse_change(s: &str) -> Option<TextDocumentContentChangeEvent> {
             range_length: None,
             text: unhex_str(t)?,
         }),
+        // with the deprecated `rangeLength` member (UTF-16 units of the replaced text, or whatever a client sends)
+        ["R", l1, c1, l2, c2, t, len] => Some(TextDocumentContentChangeEvent {
+            range: Some(Range {
+                start: Position { line: l1.parse().ok()?, character: c1.parse().ok()? },
+                end: Position { line: l2.parse().ok()?, character: c2.parse().ok()? },
+            }),
+            range_length: Some(len.parse().ok()?),
+            text: unhex_str(t)?,
+        }),
         _ => None,
     }
 }
